@@ -51,6 +51,13 @@ var cacheOps = []cacheOp{
 		w.c.Store(security.NewSessionEntry("s3", "b", nil, nil, time.Now().Add(time.Hour), 0, ""))
 		return ""
 	}},
+	{"Store(s2')", func(w *cacheWorld) string {
+		// a fresh entry re-registered under the id of the expired one
+		w.c.Store(security.NewSessionEntry("s2", "a", nil, nil, time.Now().Add(time.Hour), 0, "fresh"))
+		return ""
+	}},
+	{"Invalidate(s2)", func(w *cacheWorld) string { return b2s(w.c.Invalidate("s2")) }},
+	{"Clear", func(w *cacheWorld) string { w.c.Clear(); return "" }},
 	{"Lookup(s1)", func(w *cacheWorld) string { _, ok := w.c.Lookup("s1"); return b2s(ok) }},
 	{"Lookup(s2)", func(w *cacheWorld) string { _, ok := w.c.Lookup("s2"); return b2s(ok) }},
 	{"LookupNonExpired(s2)", func(w *cacheWorld) string { _, ok := w.c.LookupNonExpired("s2"); return b2s(ok) }},
@@ -86,8 +93,12 @@ var cacheOps = []cacheOp{
 func (w *cacheWorld) final() string {
 	var parts []string
 	for _, id := range []string{"s1", "s2", "s3"} {
-		_, ok := w.c.Lookup(id)
-		parts = append(parts, id+"="+b2s(ok))
+		e, ok := w.c.Lookup(id)
+		tag := ""
+		if ok {
+			tag = e.Tag() // tells the re-registered s2 from the original
+		}
+		parts = append(parts, id+"="+b2s(ok)+tag)
 	}
 	for _, cmd := range []string{"5", "6", "7"} {
 		e, ok := w.c.LookupByCommand("", "a", cmd)
